@@ -317,12 +317,45 @@ PROPS["C01"] = dict(
     assumptions=["inputs up to the explored sizes (quick: a few KiB per connection; the stack-exhaustion input of 24 MB is a thorough-tier case)"],
 )
 
+PROPS["C15"] = dict(
+    modules=["HT.Props.C15"],
+    streams=["c15proxy"],
+    rule="a real Honeytrap with http-proxy, copy (tcp and udp), dns-proxy and forward directors (with and without a port "
+         "in the host, the port-less one shared by two services) against fixtures run by the harness on loopback: an "
+         "HTTP backend that records every request and answers with scripted replies written in split segments, TCP and "
+         "UDP backends that record and answer, decoy listeners; client connections through the real handle() on the "
+         "scripted connection: generated request sequences (7 methods, targets with queries, 0..10 headers incl. "
+         "repeated names, bodies 0..64 KiB with content-length or chunked) in one piece, one write per request "
+         "(pipelined and lock-step), single cuts (stride) and triple cuts; arbitrary streams and datagrams; replies up "
+         "to 64 KiB; compared: backend received vs client sent, client received vs backend sent, events per request "
+         "naming the client, decoys untouched, connections per backend; requests/streams/dial targets also through the "
+         "Lean models; non-trivial = the backend received something",
+    trusted=COMMON_TB + ["verif hook server/verif_hooks.go (VerifNew, VerifHandle)",
+                         "modelled, not verified: net/http request re-serialisation and reply parsing (content compared by the "
+                         "fixtures), the ssh proxy (not exercised: no ssh backend fixture was built)",
+                         "the harness's fixtures and their own use of net/http to parse what the proxy sent"],
+    assumptions=["the backend answers every request (a backend that stalls is C09's subject)"],
+)
+
 HOOK_COMMITS = ["0596fc6", "c47bf54", "a8020ca", "beeea88", "49bef1d", "2596f07"]
 
 NOT_BUILT = "check not built yet in this round (design in DESIGN.md section 7); not claimed until its theorems and correspondence stream exist"
 NOT_APPLICABLE = {("C%02d" % i): NOT_BUILT for i in range(1, 21)}
 
 MANIFEST_TEXT = {
+    "C15": dict(
+        text="Lean theorems: the stream relay writes exactly the concatenation of what it read for every segmentation; the "
+             "forward director's target is the configured host with the configured port or else the connection's own port - "
+             "a function of configuration and connection only (counterexample: a director that remembers its first "
+             "target); the http proxy's request framing (head up to the empty line, Content-Length body) is a monotone "
+             "progressing machine, so which requests are relayed and in which order is the same for every segmentation and "
+             "pipelining (corollary of the C04 theorem). Tied to the code by backend fixtures: requests and bytes received "
+             "by the backend, replies received by the client, events, decoy listeners.",
+        design_ref="DESIGN.md section 7, C15 and section 11",
+        note="Partial: the ssh proxy is not covered (no backend fixture); equality of request/reply content through "
+             "net/http's re-serialisation is decided by the fixtures on generated traffic, not proved.",
+        technique="Lean 4 proof (relay exactness, director target, monotone request framing) + differential correspondence + backend-fixture oracle",
+    ),
     "C01": dict(
         text="Lean theorems: confinement - for any number of connections and service goroutines ending in any order, if every "
              "ending is a return or a panic under a recover the process is alive, has closed every connection and reported "
